@@ -304,6 +304,17 @@ pub fn assemble_operand(variant: &str, v: u64) -> String {
     }
 }
 
+pub fn id_ref_any(variant: &str, v: u64) -> String {
+    match make_operand(variant, v) {
+        Ok(mut op) => {
+            let a = op.id_ref_any();
+            let b = op.id_ref_any_mut().map(|r| *r);
+            format!("{{\\"id_ref_any\\": {}, \\"id_ref_any_mut\\": {}}}", a.map_or("null".to_string(), |x| x.to_string()), b.map_or("null".to_string(), |x| x.to_string()))
+        }
+        Err(e) => e,
+    }
+}
+
 pub fn disas_operand(variant: &str, v: u64) -> String {
     use rspirv::binary::Disassemble;
     match make_operand(variant, v) {
